@@ -1,5 +1,6 @@
 import Driver.Util
 import Zeno.Model.Url
+import Zeno.Model.Resolve
 import Zeno.Gen.Url
 namespace Driver.Url
 open Lean Zeno Zeno.Model.Url
@@ -48,6 +49,10 @@ def step (base : Bool) (j : Json) : Except String String := do
     | .ok => pure "ok"
     | .unsupportedScheme => pure "err:unsupported-scheme"
     | .unsupportedHost => pure "err:unsupported-host"
+  | "resolve" =>
+    -- the reference resolver of the URL standard on (page, reference); the result travels hex-encoded
+    let r := Zeno.Model.Resolve.resolveText (← str j "parent") (← str j "raw")
+    pure s!"resolved={hexStr (r.toUTF8.toList.map (·.toNat))}"
   | _ => throw s!"bad op {op}"
 
 end Driver.Url
